@@ -432,36 +432,59 @@ fn released(kept: &[Kept]) -> Option<String> {
     None
 }
 
+/// Keeps the decoding thread (and with it its thread-local tables) alive until dropped: what a failed
+/// decode leaves behind must be released while the thread lives on, not only when it ends.
+pub struct KeepAlive(Option<std::sync::mpsc::Sender<()>>, Option<std::thread::JoinHandle<()>>);
+
+impl Drop for KeepAlive {
+    fn drop(&mut self) {
+        drop(self.0.take());
+        if let Some(h) = self.1.take() {
+            let _ = h.join();
+        }
+    }
+}
+
 /// Send `bytes` with `atts` attached over a fresh channel and decode it as T on a fresh thread.
-/// Returns ("ok"|"err"|"panic", decoded value if ok).
-fn decode_as<T>(atts: Vec<WireStep>, bytes: Vec<u8>, via_set: bool) -> (String, Option<T>)
+/// Returns ("ok"|"err"|"panic", decoded value if ok, side-table lengths seen by that thread afterwards).
+fn decode_as<T>(atts: Vec<WireStep>, bytes: Vec<u8>, via_set: bool) -> (String, Option<T>, [usize; 4], KeepAlive)
 where
     T: for<'de> Deserialize<'de> + Serialize + Send + 'static,
 {
     let (tx, rx) = ipc::channel::<T>().unwrap();
     let raw_tx = tx.to_opaque().to::<Raw>();
     if raw_tx.send(Raw { atts, bytes }).is_err() {
-        return ("send-failed".into(), None);
+        return ("send-failed".into(), None, [0; 4], KeepAlive(None, None));
     }
     drop(raw_tx);
+    let (rtx, rrx) = std::sync::mpsc::channel();
+    let (ktx, krx) = std::sync::mpsc::channel::<()>();
     let h = std::thread::spawn(move || {
-        if via_set {
-            let mut set = ipc::IpcReceiverSet::new().unwrap();
-            set.add(rx).unwrap();
-            for ev in set.select().unwrap() {
-                if let ipc::IpcSelectionResult::MessageReceived(_, m) = ev {
-                    return m.to::<T>().map_err(|e| format!("{:?}", e));
+        let r = std::panic::catch_unwind(std::panic::AssertUnwindSafe(|| {
+            if via_set {
+                let mut set = ipc::IpcReceiverSet::new().unwrap();
+                set.add(rx).unwrap();
+                for ev in set.select().unwrap() {
+                    if let ipc::IpcSelectionResult::MessageReceived(_, m) = ev {
+                        return m.to::<T>().map_err(|e| format!("{:?}", e));
+                    }
                 }
+                Err("no message from the set".to_string())
+            } else {
+                rx.try_recv().map_err(|e| format!("{:?}", e))
             }
-            Err("no message from the set".to_string())
-        } else {
-            rx.try_recv().map_err(|e| format!("{:?}", e))
-        }
+        }));
+        let lens = lens();
+        let _ = rtx.send((r, lens));
+        // stay alive until the caller has looked at what was released
+        let _ = krx.recv();
     });
-    match h.join() {
-        Ok(Ok(v)) => ("ok".into(), Some(v)),
-        Ok(Err(_)) => ("err".into(), None),
-        Err(_) => ("panic".into(), None),
+    let keep = KeepAlive(Some(ktx), Some(h));
+    match rrx.recv_timeout(std::time::Duration::from_secs(20)) {
+        Ok((Ok(Ok(v)), l)) => ("ok".into(), Some(v), l, keep),
+        Ok((Ok(Err(_)), l)) => ("err".into(), None, l, keep),
+        Ok((Err(_), l)) => ("panic".into(), None, l, keep),
+        Err(_) => ("hang".into(), None, [0; 4], keep),
     }
 }
 
@@ -491,10 +514,13 @@ fn run_de(case: &Value) -> Option<String> {
         bytes.extend_from_slice(&(geti(r, "i") as u64).to_le_bytes());
     }
     let via_set = geti(case, "id") % 3 == 2;
-    let (res, val) = decode_as::<Vec<WireStep>>(atts, bytes, via_set);
+    let (res, val, tl, _keep) = decode_as::<Vec<WireStep>>(atts, bytes, via_set);
     let want = gets(case, "outcome");
     if res == "panic" {
         return Some("decoding panicked".into());
+    }
+    if tl != [0, 0, 0, 0] {
+        return Some(format!("attachment tables of the decoding thread not empty after the decode returned: {:?}", tl));
     }
     if res != want {
         return Some(format!("model says {}, code says {}", want, res));
@@ -576,25 +602,41 @@ fn run_fuzz(case: &Value) -> Option<String> {
     let fds_before = list_fds().len();
     let (atts, kept) = make_atts(&ch, nshm);
     let via_set = geti(case, "id") % 4 == 3;
+    let mut keeps: Vec<KeepAlive> = Vec::new();
+    fn fz<T>(atts: Vec<WireStep>, bytes: Vec<u8>, via_set: bool, keeps: &mut Vec<KeepAlive>) -> String
+    where
+        T: for<'de> Deserialize<'de> + Serialize + Send + 'static,
+    {
+        let (res, val, tl, keep) = decode_as::<T>(atts, bytes, via_set);
+        drop(val);
+        keeps.push(keep);
+        if res != "panic" && tl != [0, 0, 0, 0] {
+            return format!("tables:{:?}", tl);
+        }
+        res
+    }
     let res = match geti(case, "ty") % 12 {
-        0 => decode_as::<u64>(atts, bytes, via_set).0,
-        1 => decode_as::<String>(atts, bytes, via_set).0,
-        2 => decode_as::<Vec<u8>>(atts, bytes, via_set).0,
-        3 => decode_as::<(u32, String)>(atts, bytes, via_set).0,
-        4 => decode_as::<Option<bool>>(atts, bytes, via_set).0,
-        5 => decode_as::<ESmall>(atts, bytes, via_set).0,
-        6 => decode_as::<IpcSender<u64>>(atts, bytes, via_set).0,
-        7 => decode_as::<IpcReceiver<u64>>(atts, bytes, via_set).0,
-        8 => decode_as::<IpcSharedMemory>(atts, bytes, via_set).0,
-        9 => decode_as::<Vec<WireStep>>(atts, bytes, via_set).0,
-        10 => decode_as::<(IpcSender<u64>, IpcSharedMemory)>(atts, bytes, via_set).0,
-        _ => decode_as::<Nested>(atts, bytes, via_set).0,
+        0 => fz::<u64>(atts, bytes, via_set, &mut keeps),
+        1 => fz::<String>(atts, bytes, via_set, &mut keeps),
+        2 => fz::<Vec<u8>>(atts, bytes, via_set, &mut keeps),
+        3 => fz::<(u32, String)>(atts, bytes, via_set, &mut keeps),
+        4 => fz::<Option<bool>>(atts, bytes, via_set, &mut keeps),
+        5 => fz::<ESmall>(atts, bytes, via_set, &mut keeps),
+        6 => fz::<IpcSender<u64>>(atts, bytes, via_set, &mut keeps),
+        7 => fz::<IpcReceiver<u64>>(atts, bytes, via_set, &mut keeps),
+        8 => fz::<IpcSharedMemory>(atts, bytes, via_set, &mut keeps),
+        9 => fz::<Vec<WireStep>>(atts, bytes, via_set, &mut keeps),
+        10 => fz::<(IpcSender<u64>, IpcSharedMemory)>(atts, bytes, via_set, &mut keeps),
+        _ => fz::<Nested>(atts, bytes, via_set, &mut keeps),
     };
     if res == "panic" {
         return Some("decoding panicked".into());
     }
     if res == "send-failed" {
         return Some("could not send the crafted message".into());
+    }
+    if res.starts_with("tables:") {
+        return Some(format!("attachment tables of the decoding thread not empty after the decode returned ({})", res));
     }
     if let Some(why) = released(&kept) {
         return Some(why);
